@@ -5,6 +5,8 @@ mod c07;
 mod c08;
 mod vals;
 mod c09;
+mod c10;
+mod gen;
 
 fn main() {
     let argv: Vec<String> = std::env::args().collect();
@@ -17,10 +19,25 @@ fn main() {
         "c07" => c07::main(args),
         "c08" => c08::main(args),
         "c09" => c09::main(args),
+        "c10" => c10::main(args),
+        "gensizes" => {
+            print_gen_sizes();
+            0
+        }
         other => {
             eprintln!("unknown check {}", other);
             2
         }
     };
     std::process::exit(code);
+}
+
+#[allow(dead_code)]
+pub fn print_gen_sizes() {
+    for d in 1..=3 {
+        for lc in [false, true] {
+            let g = gen::Gen::new(gen::Opts { depth: d, max_programs: u64::MAX, multi_template: false, loop_controls: lc });
+            println!("depth {} loop_controls {} size {}", d, lc, g.size());
+        }
+    }
 }
